@@ -68,12 +68,27 @@ def gen_pool_schema(rng, i):
         if not structs:
             decls += K.gen_decls(rng, names, vis, 1, allow=())
             structs = [d["name"] for d in decls if d["kind"] == "struct"]
-        for j, proto in enumerate(rng.sample(["can", "lin", "eth", "uart", "spi"], rng.randint(2, 4))):
+        protos = rng.sample(["can", "lin", "eth", "uart", "spi"], rng.randint(2, 4))
+        if rng.random() < 0.3:
+            # protocol names that differ only in case / separator style (can, Can; can_fd, canFd): distinct protocols
+            protos += rng.choice([["Can"], ["canFd", "can_fd"], ["Lin", "LIN"]])
+        for j, proto in enumerate(protos):
             s = rng.choice(structs)
             if (s, proto) not in vis["impls"]:
                 vis["impls"].append((s, proto))
                 decls.append({"kind": "impl", "protocol": proto, "type": s, "name": s,
                               "fields": [["id", 300 + 7 * j + i]], "signals": []})
+        if rng.random() < 0.25:
+            # a user enum that happens to carry the name the C++ RPC layer generates for itself
+            svc = [d for d in decls if d["kind"] == "service"]
+            nm = rng.choice(["ServiceId"] + [d["name"] + "MethodId" for d in svc])
+            if not any(d.get("name") == nm for d in decls):
+                decls.insert(0, {"kind": "enum", "name": nm, "values": [["Nothing", 0], ["Something", 1]]})
+                if structs and rng.random() < 0.7:
+                    # ... and is used as a field type of a CAN message
+                    for d in decls:
+                        if d["kind"] == "struct" and d["name"] == structs[0]:
+                            d["fields"].append({"name": "kind", "id": 60, "type": ["enum", nm]})
         if rng.random() < 0.75 and not any(d["kind"] == "service" for d in decls):
             decls.append({"kind": "service", "name": names.service(), "id": rng.randint(1, 100),
                           "methods": [{"name": f"do_{rng.choice(S.WORDS)}", "id": k, "input": rng.choice(structs),
@@ -147,10 +162,11 @@ def make_pool(seed, n):
             decls = can_c_enum_schema(rng)
         else:
             decls = gen_pool_schema(rng, i)
-        pool[f"s{len(pool)}"] = S.render(decls)
+        style = rng.randrange(8)
+        pool[f"s{len(pool)}"] = S.render(decls, style)
         if i % 2 == 0 and len(pool) < n:
             # followed by its edited version (same names, other definitions)
-            pool[f"s{len(pool)}"] = S.render(edited_version(rng, decls))
+            pool[f"s{len(pool)}"] = S.render(edited_version(rng, decls), style)
         i += 1
     return pool
 
